@@ -914,6 +914,55 @@ func runMembersClass(R *res.Result) ([]membersCaseRec, []string) {
 	var cases []membersCaseRec
 	// 1. everybody up
 	cases = append(cases, offer(`{"state":"sync","state_id":1}`, alive))
+	// 1b. one more member joins the running cluster (config item `join`) and serves its API; the next offer must reach it as well
+	if j, err := srv14.JoinMember(leader, "pd4"); err != nil {
+		R.Count("members:join-failed")
+	} else {
+		xs = append(xs, j)
+		byName[j.Cfg.Name] = j
+		joined := false
+		for t := 0; t < 100 && !joined; t++ {
+			resp, err := leader.S.GetMembers(context.Background(), nil)
+			if err == nil {
+				for _, m := range resp.GetMembers() {
+					joined = joined || (m.GetName() == "pd4" && len(m.GetClientUrls()) > 0)
+				}
+			}
+			if !joined {
+				time.Sleep(100 * time.Millisecond)
+			}
+		}
+		if joined && leader.S.GetMember().IsLeader() {
+			alive["pd4"] = true
+			R.Count("members:member-joined-between-two-offers")
+			cases = append(cases, offer(`{"state":"sync_recover","state_id":3}`, alive))
+		} else {
+			R.Count("members:joined-member-not-listed")
+		}
+	}
+	names = list()
+	// 1c. a member that is not the leader cannot write the file once (a directory is in the way): the offer fails for it; the
+	// directory goes away and the very next offer must reach it again
+	for _, n := range names {
+		if byName[n] != leader && byName[n] != nil {
+			f := path.Join(byName[n].Cfg.DataDir, "DR_STATE")
+			os.Remove(f)
+			if err := os.Mkdir(f, 0700); err != nil {
+				break
+			}
+			alive[n] = false // it answers, but it cannot take the file
+			c := offer(`{"state":"sync","state_id":4}`, alive)
+			os.Remove(f)
+			alive[n] = true
+			if c.Err == "" {
+				R.Count("members:refusing-member-did-not-refuse")
+				break
+			}
+			R.Count("members:member-refused-once-then-offered-again")
+			cases = append(cases, c, offer(`{"state":"async","state_id":5}`, alive))
+			break
+		}
+	}
 	// 2. the first member of the list that is not the leader goes down: at least one live member follows it in the list
 	for _, n := range names {
 		if byName[n] != leader {
@@ -923,7 +972,7 @@ func runMembersClass(R *res.Result) ([]membersCaseRec, []string) {
 			break
 		}
 	}
-	cases = append(cases, offer(`{"state":"async","state_id":2}`, alive))
+	cases = append(cases, offer(`{"state":"sync_recover","state_id":6}`, alive))
 	var texts []string
 	for _, c := range cases {
 		es := make([]string, len(c.Members))
